@@ -33,6 +33,30 @@ def log(*a):
     print(*a, file=sys.stderr, flush=True)
 
 
+class LibraryRecursion(Exception):
+    """the library exhausted the interpreter stack a user's program would have (an error outcome of the call, not a machinery failure)"""
+
+
+class user_stack:
+    """Run library calls with the interpreter's DEFAULT recursion limit (1000 frames above a shallow caller).  The harness itself
+    runs with a raised limit (its own helpers recurse over deep DAGs); without this a parser that recurses once per tree level
+    would pass here and fail in every user's program on a legal depth-1023 tree."""
+
+    def __enter__(self):
+        self.old = sys.getrecursionlimit()
+        d, f = 0, sys._getframe()
+        while f is not None:
+            d, f = d + 1, f.f_back
+        sys.setrecursionlimit(d + 985)
+        return self
+
+    def __exit__(self, et, ev, tb):
+        sys.setrecursionlimit(self.old)
+        if et is not None and issubclass(et, RecursionError):
+            raise LibraryRecursion(str(ev)) from None
+        return False
+
+
 # ------------------------------------------------------------------ TLC
 _STATS = re.compile(r'(\d+) states generated, (\d+) distinct states found, (\d+) states left')
 _DEPTH = re.compile(r'The depth of the complete state graph search is (\d+)')
